@@ -327,9 +327,10 @@ package go_clipper2
 //@   props C14
 //@   pure
 //@   requires domPath(path, 29)
-//@   requires len(path) <= 7 || noWrap(path)
+//@   requires len(path) <= 4 || noWrap(path)
 //@   loop 0 invariant [acc] a == shoelace(path, _i) && prevPt == path[prevIdx(_i, len(path))] && len(path) >= 3
-//@   loop 0 invariant [bound] len(path) <= 7 ==> absI(a) <= int64(_i)*pow2(60)
+//@   loop 0.0 invariant [dom] dom(prevPt, 29)
+//@   loop 0 invariant [bound] len(path) <= 4 ==> absI(a) <= int64(_i)*pow2(60)
 //@   ensures [short] len(path) < 3 ==> result == 0
 //@   ensures [half] len(path) >= 3 ==> 2*result == toReal(shoelace(path, len(path)))
 //@   ensures [bounded] absI(result) <= 9223372036854775808.0
@@ -339,17 +340,25 @@ package go_clipper2
 //@   budget 3
 //@   requires domPath(path, 29)
 //@   loop 0 invariant [acc] a == shoelace(path, _i) && prevPt == path[prevIdx(_i, len(path))] && len(path) >= 3
+//@   loop 0.0 invariant [dom] dom(prevPt, 29)
+
+//@ func Area64 variant maxcoord
+//@   props C14 C13 C08
+//@   budget 3
+//@   requires domPath(path, 61)
+//@   loop 0 invariant [in-range] prevPt == path[prevIdx(_i, len(path))] && len(path) >= 3
+//@   loop 0.0 invariant [dom] dom(prevPt, 61)
 
 //@ func IsPositive64
 //@   props C14
 //@   requires domPath(poly, 29)
-//@   requires len(poly) <= 7 || noWrap(poly)
+//@   requires len(poly) <= 4 || noWrap(poly)
 //@   ensures [sign] len(poly) >= 3 ==> result == (shoelace(poly, len(poly)) >= 0)
 //@   ensures [short] len(poly) < 3 ==> result
 
 //@ func AreaPaths64
 //@   props C14
-//@   requires forall(k, 0, len(paths), domPath(paths[k], 29) && (len(paths[k]) <= 7 || noWrap(paths[k])))
+//@   requires forall(k, 0, len(paths), domPath(paths[k], 29) && (len(paths[k]) <= 4 || noWrap(paths[k])))
 //@   loop 0 invariant [sum] a == sumArea(paths, _i)
 //@   ensures [sum] result == sumArea(paths, len(paths))
 
@@ -732,6 +741,8 @@ package go_clipper2
 //@   requires group != nil && joinArgs(co, path, j, *k)
 //@   assumes co.deltaCallback == nil
 //@   ensures [moves-on] (*k == j || *k == old(*k)) && len(co.normals) == len(path)
+//@   ensures [concave-join-keeps-the-pivot] (path[j] != path[old(*k)] && absI(co.groupDelta) >= Tolerance && co.normals[j].X*co.normals[old(*k)].X + co.normals[j].Y*co.normals[old(*k)].Y > -0.999 && (co.normals[j].Y*co.normals[old(*k)].X - co.normals[old(*k)].Y*co.normals[j].X)*co.groupDelta < 0) ==> (len(co.pathOut) == old(len(co.pathOut)) + 3 && co.pathOut[old(len(co.pathOut))+1] == path[j])
+//@   ensures [zero-delta-copies-the-vertex] (path[j] != path[old(*k)] && absI(co.groupDelta) < Tolerance) ==> (len(co.pathOut) == old(len(co.pathOut)) + 1 && co.pathOut[old(len(co.pathOut))] == path[j])
 
 //@ func ClipperOffset.offsetPolygon
 //@   props C03 C05
@@ -775,7 +786,7 @@ package go_clipper2
 //@ func InflatePaths64
 //@   props C03
 //@   panicfree
-//@   requires forall(k, 0, len(paths), domPath(paths[k], 29) && (len(paths[k]) <= 7 || noWrap(paths[k])))
+//@   requires forall(k, 0, len(paths), domPath(paths[k], 29) && (len(paths[k]) <= 4 || noWrap(paths[k])))
 
 //@ func IsOdd
 //@   props C03
@@ -1350,7 +1361,7 @@ package go_clipper2
 
 //@ func NewGroup
 //@   props C05 C10 C03
-//@   assumes forall(k, 0, len(paths), domPath(paths[k], 29) && (len(paths[k]) <= 7 || noWrap(paths[k])))
+//@   assumes forall(k, 0, len(paths), domPath(paths[k], 29) && (len(paths[k]) <= 4 || noWrap(paths[k])))
 //@   loop 0 invariant [stripped] len(group.inPaths) == _i && group != nil && group.joinType == joinType && group.endType == endType && forall(k, 0, _i, same(group.inPaths[k], StripDuplicates(paths[k], isGroupJoined)))
 //@   ensures [fields] result != nil && result.joinType == joinType && result.endType == ite(len(endTypeVal) > 0, endTypeVal[0], Polygon)
 //@   ensures [stripped] len(result.inPaths) == len(paths) && forall(k, 0, len(paths), same(result.inPaths[k], StripDuplicates(paths[k], result.endType == Polygon || result.endType == Joined)))
@@ -1358,7 +1369,7 @@ package go_clipper2
 
 //@ func ClipperOffset.AddPaths
 //@   props C05 C12 C03
-//@   assumes forall(k, 0, len(paths), domPath(paths[k], 29) && (len(paths[k]) <= 7 || noWrap(paths[k])))
+//@   assumes forall(k, 0, len(paths), domPath(paths[k], 29) && (len(paths[k]) <= 4 || noWrap(paths[k])))
 //@   ensures [empty] len(paths) == 0 ==> same(co.groupList, old(co.groupList))
 //@   ensures [appended] len(paths) > 0 ==> (len(co.groupList) == old(len(co.groupList)) + 1 && co.groupList[len(co.groupList)-1] != nil && co.groupList[len(co.groupList)-1].joinType == joinType && co.groupList[len(co.groupList)-1].endType == endType)
 
@@ -1379,8 +1390,11 @@ package go_clipper2
 //@   ensures [one-point] len(co.pathOut) == old(len(co.pathOut)) + 1
 //@   ensures [miter-vertex] absI(toReal(co.pathOut[len(co.pathOut)-1].X) - (toReal(path[j].X) + (co.normals[k].X+co.normals[j].X)*(co.groupDelta/(cosA+1)))) <= 0.5 && absI(toReal(co.pathOut[len(co.pathOut)-1].Y) - (toReal(path[j].Y) + (co.normals[k].Y+co.normals[j].Y)*(co.groupDelta/(cosA+1)))) <= 0.5
 
+//@ spec grpSteps360(co *ClipperOffset, ad float64) float64 = math.Pi / math.Acos(1-ite(co.ArcTolerance > Tolerance, co.ArcTolerance, ad*arc)/ad)
+
 //@ func ClipperOffset.doGroupOffset
-//@   props C05 C10
+//@   props C05 C10 C12
+//@   loop 0 entry [arc-parameters-come-from-this-call-only] (group.joinType == Round || group.endType == RoundET) ==> (co.stepSin == ite(co.groupDelta < 0, -math.Sin((2 * math.Pi) / grpSteps360(co, absDelta)), math.Sin((2 * math.Pi) / grpSteps360(co, absDelta))) && co.stepCos == math.Cos((2 * math.Pi) / grpSteps360(co, absDelta)) && co.stepsPerRad == grpSteps360(co, absDelta) / (2 * math.Pi))
 //@   nosafety
 //@   requires group != nil
 //@   assumes forall(k, 0, len(group.inPaths), domPath(group.inPaths[k], 29))
@@ -1449,7 +1463,7 @@ package go_clipper2
 //@ func Group.GetLowestPathInfo
 //@   props C05 C03
 //@   nosafety
-//@   assumes forall(k, 0, len(g.inPaths), domPath(g.inPaths[k], 29) && (len(g.inPaths[k]) <= 7 || noWrap(g.inPaths[k])))
+//@   assumes forall(k, 0, len(g.inPaths), domPath(g.inPaths[k], 29) && (len(g.inPaths[k]) <= 4 || noWrap(g.inPaths[k])))
 //@   loop 0 invariant [orientation-of-lowest] -1 <= idx && idx < _i+1 && idx < len(g.inPaths)+1 && (idx >= 0 ==> (idx < _i && isNegArea == (Area64(g.inPaths[idx]) < 0)))
 //@   loop 0.0 invariant [shape] -1 <= idx && idx <= i && same(path, g.inPaths[i]) && 0 <= i && i < len(g.inPaths)
 //@   loop 0.0 invariant [area-cached] a != 1.7976931348623157e308 ==> (a == Area64(g.inPaths[i]) && a != 0 && idx == i)
